@@ -19,7 +19,9 @@ def gen_case(rng, i, tier):
     bounds = [0]
     for n in lens:
         bounds.append(bounds[-1] + n)
-    ops = ["case %d" % i] + links + V.gen_splits(rng, links) + ["table", "ref 0", "open 0 1 %d" % rng.choice([4096, 513, 1]), "open 1 1 4096"]
+    # (a third of the chains carry a multiplexed foreign stream: its pages lie between the Vorbis pages, also between a lapped seek's old position and
+    # the audio that follows it)
+    ops = ["case %d" % i] + V.with_mux(rng, links, p=0.35) + V.gen_splits(rng, links) + ["table", "ref 0", "open 0 1 %d" % rng.choice([4096, 513, 1]), "open 1 1 4096"]
     if rng.random() < 0.3:
         ops.append("open 2 1 4096")
         if rng.random() < 0.5:
